@@ -418,7 +418,20 @@ func MonC06() *Mon {
 			if d.F() != F || d.M() != N-F || d.N() != N {
 				n.W.Fail("C06", fmt.Sprintf("node %d: N()=%d F()=%d M()=%d with %d validators", n.ID, d.N(), d.F(), d.M(), N), "quorum-arithmetic")
 			}
-			sum := d.CountCommitted() + d.CountFailed()
+			// "committed or lost" counted by the harness over the tables, every validator once (the library's own
+			// CountCommitted/CountFailed are the subject: a validator holding both a pre-commit and a commit is one)
+			committed, lost := 0, 0
+			for i := 0; i < N && i < len(d.CommitPayloads) && i < len(d.PreCommitPayloads) && i < len(d.LastSeenMessage); i++ {
+				if d.CommitPayloads[i] != nil || d.PreCommitPayloads[i] != nil {
+					committed++
+				} else if hv := d.LastSeenMessage[i]; hv == nil || hv.Height < d.BlockIndex || hv.View < d.ViewNumber {
+					lost++
+				}
+			}
+			sum := committed + lost
+			if d.CountCommitted() != committed || d.CountFailed() != lost {
+				n.W.Fail("C06", fmt.Sprintf("node %d at (%d,%d): %d validators hold a commit or pre-commit and %d more were not heard in this view, yet CountCommitted()=%d CountFailed()=%d", n.ID, d.BlockIndex, d.ViewNumber, committed, lost, d.CountCommitted(), d.CountFailed()), "committed-or-lost-count")
+			}
 			if sum == F && F > 0 {
 				n.W.Stat("c06_exactly_f_committed_or_lost")
 				if d.ViewChanging() {
